@@ -11,6 +11,7 @@ import Ufw.Lemmas.RegpRecv
 import Ufw.Lemmas.RegpSpec
 import Ufw.Lemmas.RegpBurst
 import Ufw.Lemmas.CrcTwoBit
+import Ufw.Lemmas.RegpWord0
 
 namespace Ufw.Props.C07
 open Ufw Ufw.Model.Regp Ufw.Lemmas.Regp
@@ -240,6 +241,14 @@ theorem payload_two_bit_rejected (raw : List Octet) (f : Frame) (hacc : classify
     ∃ f', classify (raw.take (hlenOf (Ufw.Spec.Regp.unbe (raw.take 2))) ++ xorL f.payload e) = .badPayloadChecksum f' :=
   payload_burst_classified raw f hacc hpl e hlen (Ufw.Lemmas.CrcTwoBit.detectable_of_twoBit e hb)
 
+/-- a single-bit error in the first header word (version, type, option bits, response code) of an accepted
+    frame that carries a header checksum and - as every frame the library emits on a serial link - a payload
+    checksum exactly when it has a payload: the damaged frame is not accepted, whatever it is read as -/
+theorem word0_single_bit_rejected (raw : List Octet) (f : Frame) (hacc : classify raw = .accept f)
+    (hhd : f.hdcrc = true) (hser : f.plcrc = false → f.payload = []) (a b : Octet) (h1 : OneBit16 a b) :
+    ∀ f', classify (flipWord0 raw a b) ≠ .accept f' :=
+  word0_single_bit_classified raw f hacc hhd hser a b h1
+
 /-- NOT every burst is caught: the header checksum sits between the words it protects and the
     payload checksum word, so a burst that touches both the last octet of the block-size field and
     the checksum behind it can turn a valid frame into another valid frame.  Witness (known finding
@@ -259,6 +268,13 @@ theorem burst_across_size_and_checksum_accepted :
 open Ufw.Lemmas.CrcAlgebra (xorL Burst16) in
 example : Burst16 ([0#8, 0#8] ++ [0x80#8, 0xff#8, 0x01#8] ++ List.replicate 7 0#8) :=
   .three 2 7 _ _ _ (by decide) (by decide)
+
+-- the word-0 theorem applies to the accepted request above: header checksum, no payload, no payload checksum;
+-- bit 12 of the first word (octet 0, bit 4) flipped
+example : OneBit16 0x10#8 0#8 := Or.inl ⟨⟨4, by omega⟩, by decide, rfl⟩
+example : ∀ f', classify (flipWord0 [0x03#8, 0x00#8, 0x00#8, 0x05#8, 0x00#8, 0x00#8, 0x01#8, 0x00#8, 0x00#8, 0x00#8, 0x00#8, 0x03#8, 0x84#8, 0x7a#8]
+    0x10#8 0#8) ≠ .accept f' :=
+  word0_single_bit_rejected _ _ burst_across_size_and_checksum_accepted.1 rfl (fun _ => rfl) _ _ (Or.inl ⟨⟨4, by omega⟩, by decide, rfl⟩)
 
 -- two damaged bits 3 and 2*8+6 = 22 positions apart in a five-octet region
 example : Ufw.Lemmas.CrcTwoBit.TwoBit ([0#8] ++ [0x08#8] ++ [0#8] ++ [0x40#8] ++ [0#8]) :=
